@@ -160,6 +160,33 @@ def gen_direct(rng, big=False):
             "occ": occ, "ops": ops}
 
 
+def _quartet(a, b, c, d, l):
+    leaf = lambda i, x: {"id": i, "taxon": x, "label": None, "len": l, "kids": []}
+    return {"id": 0, "taxon": None, "label": None, "len": None, "kids": [
+        {"id": 1, "taxon": None, "label": None, "len": l, "kids": [leaf(2, a), leaf(3, b)]},
+        {"id": 4, "taxon": None, "label": None, "len": 2 * l, "kids": [leaf(5, c), leaf(6, d)]}]}
+
+
+def exhaustive_cases():
+    """a 3-tree sample (one topology twice): every assignment to 3 parts (empties included) x every
+    arrival order x merge operation family x rooting (rooted / unrooted / undefined)"""
+    import itertools
+    pool = [_quartet(0, 1, 2, 3, 1024), _quartet(0, 2, 1, 3, 512)]
+    flags = {"iel": False, "iag": True, "uw": True}
+    for rooting in (True, False, None):
+        occ = [{"tree": t, "rooting": rooting, "weight": None, "pre": False, "upd": False} for t in (0, 0, 1)]
+        for assign in itertools.product(range(3), repeat=3):
+            for arrival in itertools.permutations(range(3)):
+                for fam in ("update", "extend", "plus"):
+                    ops = [["add", 0, i, None, "add_tree"] for i in range(3)]
+                    ops += [["add", 2 + assign[i], i, None, "append"] for i in range(3)]
+                    for p in arrival:
+                        ops.append(["plus", 1, 1, 2 + p] if fam == "plus" else [fam, 1, 2 + p])
+                    yield {"kind": "direct", "scenario": "exhaustive", "ntax": 4,
+                           "slots": [dict(flags, rooting=None) for _ in range(5)], "pool": pool,
+                           "occ": [dict(o) for o in occ], "ops": ops}
+
+
 # ----------------------------------------------------------------------------
 # running the real library
 # ----------------------------------------------------------------------------
@@ -264,7 +291,18 @@ class World:
         return rec
 
 
+ERR_STATS = {}
+
+
 def observe_direct(case):
+    obs = _observe_direct(case)
+    for op, st in zip(case["ops"], obs["steps"]):
+        k = "outcome:%s:%s" % (op[0], st["err"] or "ok")
+        ERR_STATS[k] = ERR_STATS.get(k, 0) + 1
+    return obs
+
+
+def _observe_direct(case):
     W = World(case)
     dp = W.dp
     arrs = [dp.TreeArray(taxon_namespace=W.ns, is_rooted_trees=s["rooting"], ignore_edge_lengths=s["iel"],
@@ -375,8 +413,7 @@ def pooled(recs, flags):
     per_tree = []
     rt = rf = False
     for r in recs:
-        # note: the SplitDistribution inside a TreeArray always weights by tree.weight
-        w = r["weight"] if r["weight"] is not None else 1024
+        w = r["weight"] if (r["weight"] is not None and uw) else 1024
         total += 1
         sumw += w
         if r["rooting"] is True:
@@ -668,7 +705,8 @@ def nontrivial(case, obs):
 
 def sample_fn(case, obs):
     if case["kind"] != "direct":
-        return {"kind": case["kind"], "files": case["files"], "cfg": case["cfg"], "runs": obs.get("runs_summary")}
+        return {"kind": case["kind"], "mode": case["mode"], "trees_per_file": [len(f) for f in case["files"]],
+                "burnin": case["burnin"], "runs": obs.get("runs_summary")}
     return {"scenario": case["scenario"], "slots": case["slots"], "ops": case["ops"][:12],
             "steps": [[s["err"], s["lens"][0], s["rooting"]] for s in obs["steps"][:12]]}
 
@@ -709,6 +747,28 @@ def slim(obs):
     return o
 
 
+def detect_variants():
+    """which form of the two sites with a recorded finding does the working tree have? (DESIGN 5.2)
+    decided by replaying the findings' reproducers; returns (undefined_is_unrooted, extend_accepts_empty)"""
+    import dendropy
+    ns = dendropy.TaxonNamespace(["A", "B", "C", "D"])
+    t = dendropy.Tree.get(data="((A,B),(C,D));", schema="newick", taxon_namespace=ns)
+    assert t.is_rooted is None
+    a = dendropy.TreeArray(taxon_namespace=ns)
+    a.add_tree(t)
+    v_undef = a.is_rooted_trees is False
+    u = dendropy.Tree.get(data="[&U]((A,B),(C,D));", schema="newick", taxon_namespace=ns)
+    b = dendropy.TreeArray(taxon_namespace=ns)
+    b.add_tree(u)
+    try:
+        b.extend(dendropy.TreeArray(taxon_namespace=ns))
+        dendropy.TreeArray(taxon_namespace=ns).extend(b)
+        v_ext = True
+    except AssertionError:
+        v_ext = False
+    return v_undef, v_ext
+
+
 def run(tier, seed, replay=None):
     ctx = core.Ctx("C06", tier, seed)
     ctx.assumptions = [
@@ -728,20 +788,30 @@ def run(tier, seed, replay=None):
     ok = core.proof_stage(ctx, ["Props/C06.vo"], gen_needed=("BitFns",))
     if not ok:
         core.broken_proof(ctx, search)
-    n = 260 if tier == "quick" else 4000
+    n = 320 if tier == "quick" else 4000
     cases = [gen_direct(ctx.rng, big=(tier != "quick")) for _ in range(n)]
+    if tier != "quick":
+        cases.extend(exhaustive_cases())
     for c in cases:
         count_case(ctx, c)
-    core.corr_stage(ctx, cases, observe, to_coq_direct, HEADER, "case_ok", oracle=oracle,
-                    show_fn="case_show", nontrivial=nontrivial, search=search, shard=(40 if tier == "quick" else 125),
+    vu, ve = detect_variants()
+    ctx.notes.append("form of the sites with recorded findings in the working tree: add_tree %s; extend/+=/+ %s"
+                     % ("treats undefined rooting as unrooted (repaired form add_tree_r)" if vu else "records undefined rooting as seen (current form)",
+                        "accept an empty side (repaired form extend_r)" if ve else "assert equal rooting flags even for an empty side (current form)"))
+    ctx.variants = (vu, ve)
+    core.corr_stage(ctx, cases, observe, to_coq_direct, HEADER, "(case_ok_v %s %s)" % (cbool(vu), cbool(ve)), oracle=oracle,
+                    show_fn="(case_show_v %s %s)" % (cbool(vu), cbool(ve)), nontrivial=nontrivial, search=search, shard=(40 if tier == "quick" else 125),
                     label="direct", sample_fn=sample_fn)
     from dv import c06_sumtrees
     c06_sumtrees.stage(ctx, tier)
+    for k, v in sorted(ERR_STATS.items()):
+        ctx.count(k, v)
     return ctx.finish(level="proof", rule=(
         "direct: random tree multisets (0-7 quick / 0-9 thorough trees drawn with repetition from 1-4 topologies over 4-8 / 4-10 taxa; "
         "rooted, unrooted and undefined rooting; weights; with and without edge lengths / node ages) run through histories over 2-6 "
         "TreeArray objects: 'partition' scenario (serial one-by-one array vs. parts, some empty, merged in a random arrival order by "
         "update / extend / += / +, adds via add_tree/append/insert/add_trees) and random 'history' scenario (incl. disagreeing "
         "settings and rootings for the error branches); non-trivial = at least one successful merge of a non-empty array and an array "
-        "with >= 2 trees at the end; distinct by full case content. sumtrees: real TreeProcessor runs on 1-4 files, num_processes "
+        "with >= 2 trees at the end; distinct by full case content. thorough adds the exhaustive scope: a 3-tree sample, every "
+        "assignment to 3 parts x every arrival order x update/extend/+ x rooted/unrooted/undefined (1458 histories). sumtrees: real TreeProcessor runs on 1-4 files, num_processes "
         "1..files+2, explicit and implicit rooting, schedule observed"))
